@@ -19,7 +19,34 @@ HARNESSES = {
 
 # BOUNDED stand-ins (never counted as proved): a function outside Verus' reach is extracted verbatim into a
 # scratch crate together with a harness over symbolic inputs of bounded size (unwinding assertions on).
+_PRAGMA_TEXT = dict(file='crates/oq3_syntax/src/ast/node_ext.rs', fn='pragma_text', harness='pragma_text_is_verbatim', unwind=12,
+                 bound='every pragma line `pragma` / `#pragma` followed by at most 3 ASCII bytes',
+                 claim='node_ext.rs::PragmaStatement::pragma_text returns normally and yields exactly the text after the keyword (pragma text verbatim)',
+                 prefix="struct PragmaStatement<'a> { t: &'a str }\nimpl<'a> PragmaStatement<'a> {\n    fn text(&self) -> &str { self.t }   // stand-in for text_of_first_token (TokenText derefs to str)\n",
+                 suffix='\n}\n',
+                 body='''#[cfg(kani)]
+#[kani::proof]
+#[kani::unwind(12)]
+fn pragma_text_is_verbatim() {
+    let hash: bool = kani::any();
+    let t: [u8; 3] = kani::any();
+    let n: usize = kani::any();
+    kani::assume(n <= 3);
+    kani::assume(t[0] < 128 && t[1] < 128 && t[2] < 128);
+    let buf: [u8; 10] = if hash { [b'#', b'p', b'r', b'a', b'g', b'm', b'a', t[0], t[1], t[2]] } else { [b'p', b'r', b'a', b'g', b'm', b'a', t[0], t[1], t[2], 0] };
+    let len = (if hash { 7 } else { 6 }) + n;
+    let text = unsafe { std::str::from_utf8_unchecked(&buf[..len]) };
+    let p = PragmaStatement { t: text };
+    let r = p.pragma_text();
+    assert!(r.len() == n);
+    if n >= 1 { assert!(r.as_bytes()[0] == t[0]); }
+    if n >= 2 { assert!(r.as_bytes()[1] == t[1]); }
+    if n >= 3 { assert!(r.as_bytes()[2] == t[2]); }
+}
+''')
 EXTRACTED = {
+    'C03': [_PRAGMA_TEXT],
+    'C06': [_PRAGMA_TEXT],
     'C01': [dict(file='crates/oq3_syntax/src/validation.rs', fn='unquote', harness='unquote_never_panics', unwind=6,
                  bound='every text of at most 3 ASCII bytes, prefix_len <= 2, end delimiter `"` or `\'`',
                  claim='validation.rs::unquote (nested in validate_literal) returns normally (no slice / char-boundary panic)',
@@ -71,7 +98,7 @@ def run_extracted(prop, scratch):
         d = os.path.join(scratch, 'kani_x_' + h['harness'])
         os.makedirs(os.path.join(d, 'src'), exist_ok=True)
         open(os.path.join(d, 'Cargo.toml'), 'w').write('[package]\nname = "oq3_kani_x"\nversion = "0.0.0"\nedition = "2021"\n[workspace]\n')
-        open(os.path.join(d, 'src', 'lib.rs'), 'w').write('#![allow(dead_code)]\n' + text + '\n' + h['body'])
+        open(os.path.join(d, 'src', 'lib.rs'), 'w').write('#![allow(dead_code)]\n' + h.get('prefix', '') + text + h.get('suffix', '') + '\n' + h['body'])
         env = dict(os.environ, CARGO_NET_OFFLINE='true', CARGO_TARGET_DIR=os.path.join(d, 'target'))
         try:
             p = subprocess.run(['cargo', 'kani', '--harness', h['harness']], cwd=d, env=env, stdout=subprocess.PIPE, stderr=subprocess.STDOUT, text=True, timeout=1500)
@@ -80,7 +107,7 @@ def run_extracted(prop, scratch):
             o = 'TIMEOUT'
         if 'VERIFICATION:- SUCCESSFUL' in o:
             out.append(dict(harness=h['harness'], verdict='verified-bounded', bounded=True, backend='kani/cbmc', bound=h['bound'], claim=h['claim'],
-                            extraction='function text copied verbatim from %s on this run' % h['file']))
+                            extraction='function text copied verbatim from %s on this run' % h['file'] + (' (inside a stand-in impl: %s)' % ' '.join(h['prefix'].split()) if h.get('prefix') else '')))
         elif 'VERIFICATION:- FAILED' in o:
             failed = re.findall(r'Status: FAILURE\s*\n\s*- Description: "([^"]*)"', o)
             path = os.path.join(os.environ.get('OQ3_REPLAY_DIR', os.path.join(VERIF, 'replays')), prop, 'kani_%s.json' % h['harness'])
